@@ -267,10 +267,10 @@ class Spec:
                 if w == "-":
                     ps.append(None)
                 else:
-                    p = to_nat(w)
-                    if p >= i:
+                    bases = [to_nat(x) for x in w.split("+")]
+                    if any(p >= i for p in bases) or len(set(bases)) != len(bases):
                         raise BadOp(ws)
-                    ps.append(p)
+                    ps.append(bases[0] if len(bases) == 1 else tuple(bases))  # several bases: multiple inheritance
             self.parents = ps
         elif k == "mrep":
             self.mreps.append(parse_rep("m", ws[1:]))
@@ -335,6 +335,45 @@ class _Backed:
             raise AttributeError(self.key) from None
 
 
+class _DrawnShuffle:
+    """stands in for the AgentSet's random source: `shuffle` draws a fixed permutation"""
+
+    def __init__(self, kind):
+        self.kind = kind
+
+    def shuffle(self, lst):
+        if self.kind == "rev":
+            lst.reverse()
+        elif lst:
+            lst.append(lst.pop(0))
+
+
+def _int_key(a):
+    def key(agent):
+        v = getattr(agent, f"v{a}", None)
+        return v if type(v) is int else 0
+
+    return key
+
+
+def reorder_agents(m, ws):
+    """in-place reorderings of model.agents through the public AgentSet calls"""
+    kind, ags = ws[1], m.agents
+    if kind in ("rev", "rot") and len(ws) == 2:
+        saved = ags.random
+        ags.random = _DrawnShuffle(kind)
+        try:
+            ags.shuffle(inplace=True)
+        finally:
+            ags.random = saved
+    elif kind in ("ida", "idd") and len(ws) == 2:
+        ags.sort("unique_id", ascending=(kind == "ida"), inplace=True)
+    elif kind in ("ata", "atd") and len(ws) == 3:
+        ags.sort(_int_key(to_nat(ws[2])), ascending=(kind == "ata"), inplace=True)
+    else:
+        raise BadOp(ws)
+
+
 class World:
     """a real mesa Model + DataCollector built from a Spec; executes ops; logs what each collect saw"""
 
@@ -347,7 +386,11 @@ class World:
         base.v1 = _Backed("v1")
         self.classes = []
         for i, p in enumerate(spec.parents):
-            self.classes.append(type(f"C{i}", (base if p is None else self.classes[p],), {}))
+            bases = (base,) if p is None else tuple(self.classes[q] for q in (p if isinstance(p, tuple) else (p,)))
+            try:
+                self.classes.append(type(f"C{i}", bases, {}))
+            except TypeError:
+                raise BadOp(f"no consistent MRO for class {i}") from None
         self.other = {}
         mr = {f"m{i}": mk_mrep(r, model, i) for i, r in enumerate(spec.mreps)}
         ar = {f"a{i}": mk_arep(r, base, f"a{i}") for i, r in enumerate(spec.areps)}
@@ -361,6 +404,7 @@ class World:
         self.dc = DataCollector(model_reporters=mr or None, agent_reporters=ar or None,
                                 agenttype_reporters=tr or None, tables=tabs or None)
         self.handles = {}
+        self.reordered = False  # model.agents was reordered in place at some point
         self.collects = []  # what every collect() call saw, evaluated directly
         self.table_log = []  # (table, row dict or None if rejected, kind)
 
@@ -380,6 +424,7 @@ class World:
         sp = self.spec
         snap = {
             "step": m.steps,
+            "reordered": self.reordered,
             "m": [try_direct(lambda r=r: copy.deepcopy(direct_m(r, m))) for r in sp.mreps],
             "agents": [(a.unique_id, self.type_index(a), [try_direct(lambda r=r, a=a: direct_a(r, a)) for r in sp.areps])
                        for a in m.agents],
@@ -461,6 +506,9 @@ class World:
             elif k == "stop" and len(ws) == 2:
                 if m.steps >= to_nat(ws[1]):
                     m.running = False
+            elif k == "reorder" and len(ws) in (2, 3):
+                reorder_agents(m, ws)
+                self.reordered = True
             else:
                 raise BadOp(ws)
         except BadOp:
@@ -626,6 +674,20 @@ def type_clause_applies(spec, collects, T):
     return not (direct and sub)
 
 
+def canon_within_steps(words, loose):
+    """a frame line `ok cols=n step/id:vals …` with the rows of the steps in `loose` sorted (steps stay in place)"""
+    head, rows = words[:2], words[2:]
+    out, i = [], 0
+    while i < len(rows):
+        st = rows[i].split("/")[0]
+        j = i
+        while j < len(rows) and rows[j].split("/")[0] == st:
+            j += 1
+        out += sorted(rows[i:j]) if st.isdigit() and int(st) in loose else rows[i:j]
+        i = j
+    return " ".join(head + out)
+
+
 def oracle_collect(sc, obs):
     """C12 (and the table clause of C18) evaluated on what the implementation showed"""
     tr = sc.meta.get("trace")
@@ -670,7 +732,7 @@ def oracle_collect(sc, obs):
             elif not type_clause_applies(spec, seen, T):
                 continue
             else:
-                by_step = {}
+                by_step, loose = {}, set()
                 for c in seen:
                     if c["outcome"] != "ok":
                         # the agent-type phase may have been cut short; the property is silent
@@ -679,9 +741,19 @@ def oracle_collect(sc, obs):
                             by_step[c["step"]] = None
                         continue
                     by_step[c["step"]] = [f"{c['step']}/{i}:{fmt_vals(v)}" for i, _t, v in c["types"][T]]
+                    if c.get("reordered"):
+                        # one row per agent of the class; the property does not say whether a type's rows follow
+                        # model.agents or agents_by_type once the two orders differ (the model does: creation order
+                        # for a class with direct instances, model.agents order for a base class)
+                        loose.add(c["step"])
                 if any(v is None for v in by_step.values()):
                     continue
                 want = " ".join([f"ok cols={len(reps)}"] + [r for rows in by_step.values() for r in rows])
+                if loose and o != want:
+                    got = o.split(" ")
+                    if got[:1] == want.split(" ")[:1]:
+                        o = canon_within_steps(got, loose)
+                        want = canon_within_steps(want.split(" "), loose)
             if o != want:
                 bad.append(f"tframe: agent-type frame of C{T}: got `{o}` want `{want}`")
         elif ws[0] == "tab":
@@ -1019,7 +1091,7 @@ def run_batch(sc):
 
 
 OP_SHAPES = {"create": None, "remove": 2, "step": 1, "mset": 3, "mapp": 3, "mdel": 2, "aset": 4, "adel": 3,
-             "collect": 1, "row": None, "stop": 2}
+             "collect": 1, "row": None, "stop": 2, "reorder": None}
 
 
 def check_op_shape(ws):
@@ -1044,6 +1116,11 @@ def check_op_shape(ws):
             parse_pair(w)
     elif k in ("remove", "mdel", "stop"):
         to_nat(ws[1])
+    elif k == "reorder":
+        if not ((len(ws) == 2 and ws[1] in ("rev", "rot", "ida", "idd")) or (len(ws) == 3 and ws[1] in ("ata", "atd"))):
+            raise BadOp(ws)
+        if len(ws) == 3:
+            to_nat(ws[2])
     elif k == "mset":
         to_nat(ws[1])
         try:
@@ -1277,6 +1354,17 @@ def gen_rep(R, level, raising=False):
     return f"args {R.choice([1, 2, -1, 3])} {R.choice([0, 1, 5])} " + gen_fn(R, "G" if level == "m" else "AG", raising)
 
 
+def mro_ok(parents):
+    """Python accepts the hierarchy (C3 linearisation exists)"""
+    cls = []
+    try:
+        for i, w in enumerate(parents):
+            cls.append(type(f"K{i}", (object,) if w == "-" else tuple(cls[int(x)] for x in w.split("+")), {}))
+    except TypeError:
+        return False
+    return True
+
+
 def gen_header(R, batch=False, tables_p=0.6, raising_p=0.12):
     """class hierarchy, reporter dictionaries mixing the four forms at the three levels, tables; `raising`: some
     reporters read their attribute directly and raise while it is missing (outside C12's quantifier, tied to the model)"""
@@ -1285,6 +1373,13 @@ def gen_header(R, batch=False, tables_p=0.6, raising_p=0.12):
     parents = []
     for i in range(ncls):
         parents.append("-" if i == 0 or R.random() < 0.45 else str(R.randrange(i)))
+    if ncls >= 3 and R.random() < 0.25:
+        # multiple inheritance: one class gets two bases (kept only if Python finds a consistent MRO)
+        i = R.randrange(2, ncls)
+        q, p2 = sorted(R.sample(range(i), 2), reverse=True)
+        trial = parents[:i] + [f"{q}+{p2}" if R.random() < 0.7 else f"{p2}+{q}"] + parents[i + 1:]
+        if mro_ok(trial):
+            parents = trial
     lines = ["classes " + " ".join(parents)]
     for _ in range(R.choice([0, 1, 1, 2, 2, 3, 4])):
         lines.append("mrep " + gen_rep(R, "m", raising))
@@ -1334,7 +1429,12 @@ def gen_collect_scenario(R, reject_bias=0.0, n_ops=None):
     for a in sorted(set(read))[: R.choice([0, 1, 2, 2])]:
         lines.append(f"mset {a} {R.choice(LISTS)}")
         list_attrs.add(a)
+    # in 30% of the scenarios model.agents is reordered in place between collects (shuffle / sort)
+    reorders = R.random() < 0.3
     for _ in range(n_ops or R.randrange(6, 30)):
+        if reorders and R.random() < 0.14:
+            lines.append(gen_reorder(R))
+            continue
         k = R.random()
         if k < 0.16:
             n_attrs = 3 if raising and R.random() < 0.7 else R.choice([0, 1, 2, 3])
@@ -1376,6 +1476,11 @@ def gen_collect_scenario(R, reject_bias=0.0, n_ops=None):
     lines += [f"tframe {T}" for T in range(ncls)]
     lines += [f"tab {t}" for t in range(ntab + (1 if R.random() < 0.2 else 0))]
     return core.Scenario(lines, {})
+
+
+def gen_reorder(R):
+    k = R.choice(["rev", "rev", "rot", "rot", "ida", "idd", "ata", "atd"])
+    return f"reorder {k}" + (f" {R.randrange(3)}" if k in ("ata", "atd") else "")
 
 
 PARAM_TOKS = ["i0", "i1", "i2", "i3", "i5", "sab", "s", "sx", "dk", "dq", "t1_2", "t", "f5", "n", "l1_2", "i-1"]
@@ -1456,6 +1561,9 @@ def gen_batch_scenario(R, nprocs=(1,), small=False):
         body.insert(R.randrange(len(body) + 1), f"stop {arg(R.choice([0, 1, 2, 3, 4]))}")
     if collect_step and not pre:
         body.append("collect")
+    if R.random() < 0.12:
+        # model.agents reordered in place while stepping (rows of a collection follow the order at that collect)
+        body.insert(R.randrange(len(body) + 1), gen_reorder(R))
     if R.random() < 0.06:
         body.append("collect")  # twice per step: outside C13's quantifier, still tied to the model
     lines = ["scenario batch", *head, "init " + " ; ".join(init), "body " + " ; ".join(body)]
